@@ -121,14 +121,22 @@ Definition emon_step (cfg : e2e_cfg) (y y' : sys) (ev : sys_event) (os : list sy
   let f26s := rets ≫= (fun ir => if existsb (fun s => fst (fst s) =? fst ir) (em_sleeps m) && negb (is_ok (snd ir)) && ll
                                  then [(26, 3)] else []) in
   (* every broker message for an active client with a matching subscription reaches its handler (lossless) *)
-  let f26b := match ev with
-              | SBpub (MqPublish _ q _ topic mid payload) =>
+  let bmsgs := match ev with SBpub m => [m] | SBurst ms => ms | _ => [] end in
+  let f26b := bmsgs ≫= (fun m => match m with
+              | MqPublish _ q _ topic mid payload =>
                 if ll && cstate_eqb (cl_st (y_cl y)) Active && handler_matches (y_cl y) topic && (q <=? 2) && running_sys y then
-                  (if len (List.filter (fun c => beq (fst (fst c)) topic && beq (snd (fst c)) payload) cbs) =? 1 then [] else [(26, 4)])
+                  (let n := len (List.filter (fun c => beq (fst (fst c)) topic && beq (snd (fst c)) payload && ((q =? 0) || (snd c =? mid))) cbs) in
+                   if (if q =? 0 then 1 <=? n else n =? 1) then [] else [(26, 4)])
                 else []
-              | _ => [] end in
+              | _ => [] end) in
   (* ---- C16 safety: a gateway datagram written again is unchanged but for DUP, carries DUP, and is
           written at most RetryCount + 1 times *)
+  (* a broker PUBLISH starts a new exchange: what was written for an earlier exchange with the same
+     message ID (possibly the very same bytes) is not a first transmission of this one *)
+  let bmids := bmsgs ≫= (fun m => match m with MqPublish _ _ _ _ mid _ => [mid] | _ => [] end) in
+  let tx0 := List.filter (fun e => match read_dgram (fst e) with
+                                   | Ok (Publish _ _ _ _ _ i _) | Ok (Pubrel i) => negb (existsb (N.eqb i) bmids)
+                                   | _ => true end) (em_tx m) in
   let tx_step := fold_left (fun acc dg =>
                    let '(tx, f) := acc in
                    if negb (retransmittable dg) then (tx, f) else
@@ -136,7 +144,7 @@ Definition emon_step (cfg : e2e_cfg) (y y' : sys) (ev : sys_event) (os : list sy
                    let n := tx_count key tx in
                    (tx_bump key tx,
                     f ++ (if (0 <? n) && negb (has_dup_flag dg) then [(16, 2)] else [])
-                      ++ (if R + 1 <=? n then [(16, 3)] else []))) (so_g2c os) (em_tx m, []) in
+                      ++ (if R + 1 <=? n then [(16, 3)] else []))) (so_g2c os) (tx0, []) in
   (* ---- C16 liveness: within the retry budget a QoS 1/2 broker message for an active client is
           delivered (QoS 2: exactly once) and acknowledged to the broker *)
   let track := negb ll && (nfaults cfg <=? R) in
@@ -157,18 +165,32 @@ Definition emon_step (cfg : e2e_cfg) (y y' : sys) (ev : sys_event) (os : list sy
                 (if pb_deadline p <? t1 then
                    (if pb_cb p =? 0 then [(16, 5)] else []) ++ (if pb_acked p then [] else [(16, 6)])
                  else [])) in
-  let bp2 := List.filter (fun p => negb (pb_deadline p <? t1) && negb (pb_acked p && (0 <? pb_cb p) && false)) bp1 in
-  let bp3 := match ev with
-             | SBpub (MqPublish _ q _ topic mid payload) =>
+  (* a message is owed only while the client stays connected: a Disconnect / Close / Sleep call of the
+     program or the end of the session releases what is still pending *)
+  let released := negb (running_sys y') ||
+                  match ev with SCall _ ADisconnect | SCall _ AClose | SCall _ (ASleep _) => true | _ => false end in
+  let bp2 := if released then [] else List.filter (fun p => negb (pb_deadline p <? t1)) bp1 in
+  let bp3 := bp2 ++ (bmsgs ≫= (fun m => match m with
+             | MqPublish _ q _ topic mid payload =>
                if track && cstate_eqb (cl_st (y_cl y)) Active && handler_matches (y_cl y) topic && ((q =? 1) || (q =? 2)) && running_sys y
-               then bp2 ++ [{| pb_mid := mid; pb_qos := q; pb_topic := topic; pb_payload := payload;
-                              pb_deadline := t0 + 4 * (R + 1) * (N.max (retry_delay (e_gw cfg)) (k_rdelay (e_cl cfg))) + 1000;
-                              pb_cb := ncb_of mid topic payload; pb_acked := ack_of q mid |}]
-               else bp2
-             | _ => bp2 end in
+               then [{| pb_mid := mid; pb_qos := q; pb_topic := topic; pb_payload := payload;
+                        pb_deadline := t0 + 4 * (R + 1) * (N.max (retry_delay (e_gw cfg)) (k_rdelay (e_cl cfg))) + 1000;
+                        pb_cb := ncb_of mid topic payload; pb_acked := ack_of q mid |}]
+               else []
+             | _ => [] end)) in
   let sleeps1 := List.filter (fun s => negb (existsb (fun ir => fst ir =? fst (fst s)) rets)) (em_sleeps m) in
   let sleeps2 := match ev with
                  | SCall id (ASleep ms) => if call_sensible cfg y (ASleep ms) then sleeps1 ++ [(id, t0, ms)] else sleeps1
                  | _ => sleeps1 end in
   ({| em_sleeps := sleeps2; em_bpubs := bp3; em_tx := fst tx_step |},
    f26a ++ f26s ++ f26b ++ snd tx_step ++ f16l).
+
+(* fold over a history: the composed model supplies states and (for the theorems) the observations *)
+Fixpoint emon_run (cfg : e2e_cfg) (y : sys) (m : emon) (evs : list sys_event) : list (N * N) :=
+  match evs with
+  | [] => []
+  | ev :: evs' =>
+    let '(y', os) := sys_step cfg y ev in
+    let '(m', f) := emon_step cfg y y' ev os m in
+    f ++ emon_run cfg y' m' evs'
+  end.
